@@ -19,8 +19,8 @@ ASSUMPTIONS = [
 
 
 def _bash_printer_skips(repo, res):
-    from vlib import rules_skips as SK, tables
-    SK.skips_rule(repo, res, tables.load("skips")["row"], only={q for q in SK.printers(repo) if q.startswith("bash::")})
+    from vlib import rules_declguard as DG
+    DG.declguard_rule(repo, res, modules=("bash",))
 
 
 def run(repo, res, tier):
